@@ -27,7 +27,8 @@ PID = "C05"
 QUICK = ["kundur/kundur_full.json", "ieee14/ieee14_full.xlsx", "ieee39/ieee39_full.xlsx", "5bus/pjm5bus.json", "kundur/kundur_aw.json",
          "ieee14/ieee14_pvd1.json", "ieee14/ieee14_solar.xlsx", "wecc/wecc_full.xlsx", "ieee14/ieee14_zip.json", "kundur/kundur_vsc.xlsx",
          "ieee14/ieee14_esst3a.xlsx", "npcc/npcc.xlsx", "ieee14/ieee14_esdc1a.xlsx", "kundur/kundur_islands.json",
-         "ieee14/ieee14_exac1.json", "ieee14/ieee14_esac1a.xlsx", "ieee14/ieee14_ac8b.xlsx", "ieee14/ieee14_esst1a.xlsx"]
+         "ieee14/ieee14_exac1.json", "ieee14/ieee14_esac1a.xlsx", "ieee14/ieee14_ac8b.xlsx", "ieee14/ieee14_esst1a.xlsx",
+         "kundur/kundur_ieeest.xlsx"]
 # cases whose controllers have iteratively initialised variables come first in the out-of-service variants
 ITER_INIT = ["ieee14/ieee14_exac1.json", "ieee14/ieee14_esac1a.xlsx", "ieee14/ieee14_ac8b.xlsx", "ieee14/ieee14_esst1a.xlsx"]
 
@@ -52,7 +53,10 @@ def run(tier):
     if quick:
         rnd.shuffle(scen)
         scen = scen[:60]
-    tasks = [dict(kind="handover", scen=s, sid="handover[%s|g=%d/%d|u=%d%d|slack=%d]" % (s["kind"], s["g1"], s["g2"], s["u1"], s["u2"], s["us"]))
+    if quick:
+        scen = [x for x in scen if not x.get("dg")][:58] + [x for x in scen if x.get("dg")]
+    tasks = [dict(kind="handover", scen=s, sid="handover[%s|g=%d/%d|u=%d%d|slack=%d%s]" % (s["kind"], s["g1"], s["g2"], s["u1"], s["u2"], s["us"],
+                                                                                             "|DG on slack %d/10" % s["dg"] if s.get("dg") else ""))
              for s in scen]
     stock = [c for c in (QUICK if quick else stock_cases()) if os.path.exists(os.path.join("/repo/andes/cases", c))]
     tasks += [dict(kind="stock", case=c, sid="stock[%s]" % c) for c in stock]
@@ -85,6 +89,11 @@ def run(tier):
         for m in ctrl_models:
             variants.append(dict(kind="stock", case=c, sid="stock[%s|first %s out of service]" % (c, m), offline=m, baseline_ok=True,
                                  baseline_at_limit=at_limit[c], probes=False, flat=False))
+    # every documented input signal of the stabiliser (speed, bus frequency, power, accelerating power, bus voltage, its rate)
+    for c in [c_ for c_ in good if "ieeest" in c_][:2]:
+        for mode in (1, 2, 3, 4, 5, 6):
+            variants.append(dict(kind="stock", case=c, sid="stock[%s|IEEEST input mode %d]" % (c, mode), set_param=("IEEEST", "MODE", mode),
+                                 baseline_ok=True, baseline_at_limit=at_limit[c], probes=False, flat=False))
     vres = run_tasks("vh.initdrv:task", variants, nproc=NCPU, timeout=1200)
     tasks = tasks + variants
     res = res + vres
